@@ -267,7 +267,7 @@ func (c AdmitCase) mustRefuse() (bool, string) {
 
 func runAdmit(c AdmitCase) (int, error) {
 	desc := SimpleDesc([]int{1, 1})
-	w, err := StartWorld(WorldCfg{UDP: true, TLS: c.TLS, Desc: desc, ReadTimeout: 2 * time.Second, WriteTimeout: 2 * time.Second})
+	w, err := StartWorld(WorldCfg{UDP: true, TLS: c.TLS, Desc: desc, ReadTimeout: 10 * time.Second, WriteTimeout: 10 * time.Second, Multicast: c.Proto == "mcast"})
 	if err != nil {
 		return 0, nil
 	}
